@@ -4,7 +4,7 @@
    implementation's returned points (step of one model pass, KKT residuals, objective against the
    constructed optimum). *)
 From Coq Require Import List Arith ZArith QArith Qabs Bool.
-From TLV Require Import Base.Ops Base.PyList Base.Tensor Model.Nnls Model.NnlsEntry Corr.Common.
+From TLV Require Import Base.Ops Base.PyList Base.Tensor Model.Nnls Model.NnlsEntry Model.NnlsAdmm Model.NnlsMomentum Corr.Common.
 Import ListNotations.
 
 Notation qmat := (list (list Q)).
@@ -45,6 +45,12 @@ Definition clear_dec (d : Q * Q) : bool :=
   negb (qle (qabs (qsub (fst d) (snd d))) (qmul margin (qadd (qabs (fst d)) (qabs (snd d))))).
 Definition all_clear (ds : list (Q * Q)) : bool := forallb clear_dec ds.
 
+(* the recorded momentum coefficients (the harness repeats the code's float computation) are the model's own sequence
+   (Model/NnlsMomentum.v, computed here with the 2^-60 square root) to 1e-14; the iterations below are evaluated with the
+   recorded dyadic values to keep the rationals small (the iteration is Lipschitz in the coefficients) *)
+Definition betas_ok (betas : list Q) : bool :=
+  vclose (1 # 100000000000000) 0 betas (fista_betas Qops qsqrt (length betas)).
+
 Definition optq (o : option Q) : Q := match o with Some x => x | None => 0%Q end.
 
 Inductive case :=
@@ -66,11 +72,17 @@ Inductive case :=
 | CFistaCall (id : nat) (UtM UtU : qmat) (n : nat) (nonneg : bool) (sp rd lr : option Q) (sigma eps : Q) (x0 : option qmat)
              (betas : list Q) (impl : res qmat)
 | CAset (id : nat) (Utm : list Q) (UtU : qmat) (x0 : option (list Q)) (iters : nat) (tol : Q) (impl : option (list Q))
-| CAdmm (id : nat) (UtM UtU x dual : qmat) (m r : nat) (implx implsplit : qmat).
+| CAdmm (id : nat) (UtM UtU x dual : qmat) (m r : nat) (implx implsplit : qmat)
+(* the whole function admm (Model/NnlsAdmm.v): n_const / order as passed (None = the Python value None), one scalar
+   constraint kind (0 none, 1 non_negative=True, 2 l1_reg=par, 3 l2_square_reg=par), n_iter_max = iters, tol;
+   impl: Err = the call raised, Ok (x, x_split, dual_var) *)
+| CAdmmLoop (id : nat) (UtM UtU x dual : qmat) (m r : nat) (nconst order : option nat) (kind : nat) (par : Q)
+            (iters : nat) (tol : Q) (impl : res (qmat * qmat * qmat)).
 
 Definition ident (c : case) : nat :=
   match c with CHals i _ _ _ _ _ _ _ _ _ _ => i | CConv i _ _ _ _ _ _ _ _ _ _ _ _ _ => i
-             | CFista i _ _ _ _ _ _ _ _ _ _ _ _ => i | CFista2 i _ _ _ _ _ _ _ _ _ _ _ _ _ => i | CFistaCall i _ _ _ _ _ _ _ _ _ _ _ _ => i | CAset i _ _ _ _ _ _ => i | CAdmm i _ _ _ _ _ _ _ _ => i end.
+             | CFista i _ _ _ _ _ _ _ _ _ _ _ _ => i | CFista2 i _ _ _ _ _ _ _ _ _ _ _ _ _ => i | CFistaCall i _ _ _ _ _ _ _ _ _ _ _ _ => i | CAset i _ _ _ _ _ _ => i | CAdmm i _ _ _ _ _ _ _ _ => i
+             | CAdmmLoop i _ _ _ _ _ _ _ _ _ _ _ _ _ => i end.
 
 Definition atol : Q := 1 # 1000000000.
 Definition rtol : Q := 1 # 1000000000.
@@ -118,20 +130,22 @@ Definition agree (c : case) : bool :=
        result; only when a stopping decision was borderline, any iterate of the model (with tol = 0 the model's rule
        never fires -- C13_fista_tol0_runs_all -- so `fista ... 0 ... (firstn k betas)` is exactly the k-th iterate) *)
     let tr := fista_trace Qops UtM UtU n nonneg sp rd lr tol eps betas true 0%Q x0 x0 in
-    mclose atol rtol (snd tr) impl
-    || (negb (all_clear (fst tr))
-        && existsb (fun k => mclose atol rtol (fista Qops UtM UtU n nonneg sp rd lr 0 eps x0 (firstn k betas)) impl)
-                   (rev (seq 0 (S (length betas)))))
+    betas_ok betas &&
+    (mclose atol rtol (snd tr) impl
+     || (negb (all_clear (fst tr))
+         && existsb (fun k => mclose atol rtol (fista Qops UtM UtU n nonneg sp rd lr 0 eps x0 (firstn k betas)) impl)
+                    (rev (seq 0 (S (length betas))))))
   | CFista2 _ UtM A B r2 nonneg sp rd lr tol eps x0 betas impl =>
     let tr := fista2_trace Qops UtM A B r2 nonneg sp rd lr tol eps betas true 0%Q x0 x0 in
-    mclose atol rtol (snd tr) impl
-    || (negb (all_clear (fst tr))
-        && existsb (fun k => mclose atol rtol (fista2 Qops UtM A B r2 nonneg sp rd lr 0 eps x0 (firstn k betas)) impl)
-                   (rev (seq 0 (S (length betas)))))
+    betas_ok betas &&
+    (mclose atol rtol (snd tr) impl
+     || (negb (all_clear (fst tr))
+         && existsb (fun k => mclose atol rtol (fista2 Qops UtM A B r2 nonneg sp rd lr 0 eps x0 (firstn k betas)) impl)
+                    (rev (seq 0 (S (length betas))))))
   | CFistaCall _ UtM UtU n nonneg sp rd lr sigma eps x0 betas impl =>
     match fista_call Qops UtM UtU n nonneg sp rd lr sigma 0 eps x0 betas, impl with
     | Err, Err => true
-    | Ok W, Ok Wi => mclose atol rtol W Wi
+    | Ok W, Ok Wi => betas_ok betas && mclose atol rtol W Wi
     | _, _ => false
     end
   | CAset _ Utm UtU x0 iters tol impl =>
@@ -144,6 +158,28 @@ Definition agree (c : case) : bool :=
     match admm_none Qops (msolve' m) UtM UtU x dual m r 1 with
     | (mx, Some ms, md) => mclose atol (1 # 10000000) mx implx && mclose atol (1 # 10000000) ms implsplit
     | _ => false
+    end
+  | CAdmmLoop _ UtM UtU x dual m r nconst order kind par iters tol impl =>
+    let k := match kind with 0 => KNone | 1 => KNonneg | 2 => KL1 par | _ => KL2sq par end%nat in
+    let close3 (a b : qmat * qmat * qmat) :=
+        mclose atol (1 # 10000000) (fst (fst a)) (fst (fst b)) && mclose atol (1 # 10000000) (snd (fst a)) (snd (fst b))
+        && mclose atol (1 # 10000000) (snd a) (snd b) in
+    match admm Qops (msolve' m) nconst order k UtM UtU x dual m r iters tol, impl with
+    | Err, Err => true
+    | Ok t, Ok ti =>
+      close3 t ti
+      || match nconst with
+         | None => false
+         | Some _ =>
+           (* the returned state is the model's; only when a stopping decision was borderline, the state after any
+              number 1..iters of loop bodies (tol = -1: the model's rule never fires) *)
+           let tr := admm_trace Qops (msolve' m) (apply_constr Qops k) UtM UtU m r tol iters x None dual in
+           negb (all_clear (fst tr))
+           && existsb (fun j => match admm_loop Qops (msolve' m) (apply_constr Qops k) UtM UtU m r (-1 # 1) j x None dual with
+                                | (a, Some b, c) => close3 (a, b, c) ti
+                                | _ => false end) (seq 1 iters)
+         end
+    | _, _ => false
     end
   end.
 
